@@ -294,7 +294,7 @@ class ASTToPymbolic(ASTMapper):
 
 class PymbolicToASTMapper(CachedMapper):
     def map_variable(self, expr) -> ast.expr:
-        return ast.Name(id=expr.name)
+        return ast.Name(id=expr.name, ctx=ast.Load())
 
     def _map_multi_children_op(self,
                                children: tuple[ExpressionT, ...],
@@ -341,11 +341,13 @@ class PymbolicToASTMapper(CachedMapper):
 
     def map_subscript(self, expr) -> ast.expr:
         return ast.Subscript(value=self.rec(expr.aggregate),
-                             slice=self.rec(expr.index))
+                             slice=self.rec(expr.index),
+                             ctx=ast.Load())
 
     def map_lookup(self, expr) -> ast.expr:
         return ast.Attribute(self.rec(expr.aggregate),
-                             expr.name)
+                             expr.name,
+                             ctx=ast.Load())
 
     def map_quotient(self, expr) -> ast.expr:
         return self._map_multi_children_op((expr.numerator,
@@ -404,10 +406,10 @@ class PymbolicToASTMapper(CachedMapper):
                                      for child in expr.children])
 
     def map_list(self, expr: list[Any]) -> ast.expr:
-        return ast.List([self.rec(el) for el in expr])
+        return ast.List([self.rec(el) for el in expr], ctx=ast.Load())
 
     def map_tuple(self, expr: tuple[Any, ...]) -> ast.expr:
-        return ast.Tuple([self.rec(el) for el in expr])
+        return ast.Tuple([self.rec(el) for el in expr], ctx=ast.Load())
 
     def map_if(self, expr: p.If) -> ast.expr:
         return ast.IfExp(test=self.rec(expr.condition),
@@ -418,7 +420,7 @@ class PymbolicToASTMapper(CachedMapper):
         assert expr.data_type is not None
         if isinstance(expr.data_type(float("nan")), float):
             return ast.Call(
-                ast.Name(id="float"),
+                ast.Name(id="float", ctx=ast.Load()),
                 args=[ast.Constant("nan")],
                 keywords=[])
         else:
